@@ -20,7 +20,8 @@ theorem digitsAux_acc (r : Nat) (n : Nat) (acc : List Nat) :
   induction n using Nat.strong_induction_on generalizing acc with
   | _ n ih =>
     by_cases h : r < 2 ∨ n = 0
-    · rw [digitsAux, digitsAux]; simp [h]
+    · have e : ∀ a, digitsAux r n a = a := by intro a; rw [digitsAux]; simp [h]
+      rw [e, e []]; simp
     · have hr : 2 ≤ r := by omega
       have hn : n ≠ 0 := by omega
       rw [digitsAux_step hr hn, digitsAux_step hr hn []]
@@ -36,13 +37,17 @@ theorem ofDigits_nil (r : Nat) : ofDigits r [] = 0 := rfl
 
 theorem ofDigits_append (r : Nat) (a b : List Nat) :
     ofDigits r (a ++ b) = ofDigits r a * r ^ b.length + ofDigits r b := by
+  have key : ∀ (b : List Nat) (acc : Nat),
+      List.foldl (fun a d => a * r + d) acc b = acc * r ^ b.length + List.foldl (fun a d => a * r + d) 0 b := by
+    intro b
+    induction b with
+    | nil => intro acc; simp
+    | cons d b ih =>
+      intro acc
+      simp only [List.foldl_cons, List.length_cons]
+      rw [ih (acc * r + d), ih (0 * r + d)]; ring
   unfold ofDigits
-  induction b using List.reverseRecOn with
-  | nil => simp
-  | append_singleton b d ih =>
-    rw [← List.append_assoc, List.foldl_append, List.foldl_append]
-    simp only [List.foldl_cons, List.foldl_nil, List.length_append, List.length_cons, List.length_nil]
-    rw [ih]; ring
+  rw [List.foldl_append, key b]
 
 theorem ofDigits_singleton (r d : Nat) : ofDigits r [d] = d := by simp [ofDigits]
 
@@ -103,10 +108,11 @@ theorem digitsAux_head_ne_zero {r : Nat} (hr : 2 ≤ r) (n : Nat) : (digitsAux r
     · rw [digitsAux_succ hr hn]
       by_cases hq : n / r = 0
       · rw [hq, digitsAux_zero]
-        simp
-        have : n % r = n := by
-          have := Nat.div_add_mod n r; rw [hq] at this; omega
-        omega
+        have hlt : n < r := by
+          rcases Nat.lt_or_ge n r with h | h
+          · exact h
+          · have := Nat.div_pos h (by omega : 0 < r); omega
+        simp [Nat.mod_eq_of_lt hlt, hn]
       · have hne := digitsAux_ne_nil hr hq
         have := ih _ (Nat.div_lt_self (by omega) (by omega))
         cases h : digitsAux r (n / r) [] with
@@ -165,7 +171,7 @@ theorem digitsAux_mul_add {r : Nat} (hr : 2 ≤ r) (k q t : Nat) (hq : q ≠ 0) 
   | succ k ih =>
     have hrp : 0 < r := by omega
     have hn : q * r ^ (k + 1) + t ≠ 0 := by
-      have : 0 < q * r ^ (k + 1) := Nat.mul_pos (Nat.pos_of_ne_zero hq) (Nat.pos_pow hrp)
+      have : 0 < q * r ^ (k + 1) := Nat.mul_pos (Nat.pos_of_ne_zero hq) (Nat.pow_pos hrp)
       omega
     rw [digitsAux_succ hr hn, digitsPad_succ]
     have h1 : (q * r ^ (k + 1) + t) % r = t % r := by
@@ -178,7 +184,7 @@ theorem digitsAux_mul_add {r : Nat} (hr : 2 ≤ r) (k q t : Nat) (hq : q ≠ 0) 
 
 theorem digitsAux_div_mod {r : Nat} (hr : 2 ≤ r) (k x : Nat) (hq : x / r ^ k ≠ 0) :
     digitsAux r x [] = digitsAux r (x / r ^ k) [] ++ digitsPad r k (x % r ^ k) := by
-  have hp : 0 < r ^ k := Nat.pos_pow (by omega)
+  have hp : 0 < r ^ k := Nat.pow_pos (by omega)
   have := digitsAux_mul_add hr k (x / r ^ k) (x % r ^ k) hq (Nat.mod_lt _ hp)
   rw [← this]; congr 1
   have := Nat.div_add_mod x (r ^ k); rw [Nat.mul_comm] at this; omega
@@ -202,7 +208,7 @@ theorem digits_eq_digitsPad {r : Nat} (hr : 2 ≤ r) (k n : Nat) (hk : 1 ≤ k)
   · subst h0; subst h1; simp [digits, digitsPad, digitsPadLE]
   · obtain ⟨j, rfl⟩ : ∃ j, k = j + 1 := ⟨k - 1, by omega⟩
     simp only [Nat.add_sub_cancel] at hlo
-    have hp : 0 < r ^ j := Nat.pos_pow (by omega)
+    have hp : 0 < r ^ j := Nat.pow_pos (by omega)
     have hn : n ≠ 0 := by omega
     have hq : n / r ^ j ≠ 0 := by
       have := (Nat.le_div_iff_mul_le hp).mpr (by simpa using hlo : 1 * r ^ j ≤ n)
@@ -220,11 +226,10 @@ theorem ofDigits_digitsPad {r : Nat} (k x : Nat) : ofDigits r (digitsPad r k x) 
   | zero => simp [digitsPad_zero, ofDigits, Nat.mod_one]
   | succ k ih =>
     rw [digitsPad_succ, ofDigits_append, ih, ofDigits_singleton]
-    simp only [List.length_cons, List.length_nil, pow_one]
-    rw [Nat.mod_pow_succ]
+    simp only [List.length_cons, List.length_nil]
     have : x % r ^ (k + 1) = x % r + r * (x / r % r ^ k) := by
       rw [pow_succ, Nat.mul_comm (r ^ k) r]; exact Nat.mod_mul
-    rw [this]; ring_nf
+    rw [this]; ring
 
 /-- element-wise description of the fixed-width digits -/
 theorem digitsPadLE_eq_range (r k x : Nat) :
